@@ -41,7 +41,10 @@ HasFlight(s) == s \in {"srflx-own", "srflx-mux", "relay"}
 IsMux(s) == s \in {"host-udpmux", "host-tcpmux", "srflx-mux"}
 ResNames(s) == IF s = "relay" THEN {"conn", "cli", "loc"} ELSE {"conn"}
 AllNames == {"conn", "cli", "loc"}
+\* "filtered": the socket is opened, then the candidate is refused before it is ever handed to addCandidate (every external address
+\* of the srflx-mapped gatherer is one that must not be published) - the gatherer still owns the socket and must close it
 FaultOK(s, f) == f \in {"none", "listen-error"} \/ (f = "dup" /\ s \in {"host-udp", "host-tcpmux", "srflx-own", "srflx-mux", "relay"})
+                 \/ (f = "filtered" /\ s = "srflx-mapped")
 
 C == 1..MaxCycles
 NoRes == [o |-> FALSE, cl |-> 0, rm |-> FALSE, ug |-> 0]
@@ -197,7 +200,8 @@ Open(k) ==
          ELSE CASE site = "srflx-own" -> /\ res' = [res EXCEPT ![c] = Opn(c, {"conn"})] /\ pc' = [pc EXCEPT ![c] = "flight"]
                                          /\ wf' = [wf EXCEPT ![c] = "armed"]
                 [] site = "relay" -> res' = [res EXCEPT ![c] = Opn(c, {"loc", "cli"})] /\ pc' = [pc EXCEPT ![c] = "flight"] /\ UNCHANGED wf
-                [] OTHER -> res' = [res EXCEPT ![c] = Opn(c, {"conn"})] /\ pc' = [pc EXCEPT ![c] = "built"] /\ UNCHANGED wf
+                [] OTHER -> res' = [res EXCEPT ![c] = Opn(c, {"conn"})] /\ UNCHANGED wf
+                            /\ pc' = [pc EXCEPT ![c] = IF fault = "filtered" THEN "reject" ELSE "built"]
   /\ UNCH_CYC /\ UNCHANGED <<gs, aid, narr, own, comp, nils, nilg, npub, pubmix>>
 Reply(k) ==
   /\ \E c \in C : aid[c] = k /\ pc[c] = "flight"
